@@ -78,18 +78,17 @@ impl<const W: usize> Sink<W> {
 		}
 	}
 
-	/// Word-wise comparison (never slice `==`, which is a memcmp loop).
+	/// Word-wise comparison, loop-free (never slice `==`, which is a memcmp
+	/// loop): Kani has one unwind bound per harness and this must not raise it.
 	pub fn same_as(&self, other: &Sink<W>) -> bool {
 		if self.len != other.len || self.overflow || other.overflow {
 			return false;
 		}
-		let mut i = 0;
-		while i < W {
-			if self.w[i] != other.w[i] {
-				return false;
-			}
-			i += 1;
+		macro_rules! word {
+			($($i:expr),*) => { $( if $i < W && self.w[$i] != other.w[$i] { return false; } )* };
 		}
+		word!(0, 1, 2, 3, 4, 5, 6, 7, 8, 9, 10, 11, 12, 13, 14, 15);
+		const { assert!(W <= 16) };
 		true
 	}
 
